@@ -307,6 +307,20 @@ type Obs = (Vec<Option<Vec<u8>>>, Vec<Vec<(Vec<u8>, u64, bool, Vec<u8>)>>, Optio
 fn observe(tree: &crate::Tree, reads: &[u64]) -> std::result::Result<Obs, String> {
 	use crate::HistoryOptions;
 	let tx = tree.begin().map_err(|e| e.to_string())?;
+	// FIRST reader of whatever tables exist now: a windowed history query (its blocks are cached under the timestamp
+	// order), then a plain point read - which must not be answered from those blocks
+	let plain_first = {
+		let opts = HistoryOptions::new().with_tombstones(true).with_ts_range(50, 1000);
+		let mut it = tx.history_with_options(b"a".to_vec(), b"z".to_vec(), &opts).map_err(|e| format!("history failed: {e}"))?;
+		let mut ok = it.seek_first().map_err(|e| format!("history seek failed: {e}"))?;
+		let mut guard = 0;
+		while ok && guard < 100 {
+			guard += 1;
+			ok = it.next().map_err(|e| format!("history step failed: {e}"))?;
+		}
+		drop(it);
+		tx.get(b"k".to_vec()).map_err(|e| format!("get failed: {e}"))?
+	};
 	let mut gets = Vec::new();
 	for &t in reads {
 		gets.push(tx.get_at(b"k".to_vec(), t).map_err(|e| format!("get_at({t}) failed: {e}"))?);
@@ -383,6 +397,15 @@ fn observe(tree: &crate::Tree, reads: &[u64]) -> std::result::Result<Obs, String
 			fwd_bwd = Some(format!("history with timestamp window [{lo},{hi}]: the backward traversal lists {:?}, the forward traversal lists {:?}", show(&back), show(&out)));
 		}
 		lists.push(out);
+	}
+	// a plain point read AFTER the windowed history queries (whose blocks are cached under another key order) answers
+	// what the time-travel read at 'now' answered before them: what is cached never changes an answer
+	let plain = tx.get(b"k".to_vec()).map_err(|e| format!("get failed: {e}"))?;
+	if Some(&plain_first) != gets.last() {
+		return Err(format!("get(k) right after a windowed history query (first reader of the tables) returns {:?}, get_at(k, now) returns {:?}", plain_first.as_ref().map(|v| String::from_utf8_lossy(v).to_string()), gets.last().map(|g| g.as_ref().map(|v| String::from_utf8_lossy(v).to_string()))));
+	}
+	if Some(&plain) != gets.last() && fwd_bwd.is_none() {
+		return Err(format!("get(k) after the windowed history queries returns {:?}, get_at(k, now) before them returned {:?}", plain.as_ref().map(|v| String::from_utf8_lossy(v).to_string()), gets.last().map(|g| g.as_ref().map(|v| String::from_utf8_lossy(v).to_string()))));
 	}
 	Ok((gets, lists, fwd_bwd))
 }
